@@ -109,13 +109,22 @@ fn one_split<C: Suite>(ctx: &mut Ctx, g: u64, t: usize, nn: usize, exhaustive: b
     }
     let len = gen::LENGTHS_SMALL[idx % gen::LENGTHS_SMALL.len()];
     let msg = gen::message(len, Content::Random, &mut rng);
-    let pkshares: Vec<PublicKeyShare<C>> = shares.iter().map(|s| s.public_key().expect("pk share")).collect();
+    let Ok(pkshares) = shares.iter().map(|s| s.public_key()).collect::<Result<Vec<PublicKeyShare<C>>, _>>() else {
+        ctx.violation(&format!("C08/share-operation-failed/{n}/public_key"), json!({"what":"a secret-key share yields no public-key share","t":t,"n":nn}));
+        return;
+    };
     let schemes = [Scheme::Basic, Scheme::Pop];
     let whole: Vec<Vec<u8>> = schemes.iter().map(|s| Vec::from(&sk.sign(lscheme(*s), &msg).expect("sign"))).collect();
-    let partials: Vec<Vec<SignatureShare<C>>> = schemes
-        .iter()
-        .map(|s| shares.iter().map(|sh| sh.sign(lscheme(*s), &msg).expect("partial sign")).collect())
-        .collect();
+    let mut partials: Vec<Vec<SignatureShare<C>>> = Vec::new();
+    for s in schemes.iter() {
+        match shares.iter().map(|sh| sh.sign(lscheme(*s), &msg)).collect::<Result<Vec<SignatureShare<C>>, _>>() {
+            Ok(v) => partials.push(v),
+            Err(e) => {
+                ctx.violation(&format!("C08/share-operation-failed/{n}/partial-sign/{}", s.name()), json!({"what":"a secret-key share cannot sign","t":t,"n":nn,"error":e.to_string()}));
+                return;
+            }
+        }
+    }
 
     // reference Lagrange over the share bytes: first t shares
     {
